@@ -219,6 +219,29 @@ def run(chk, repo, tier):
                    identity_holds(o.lo - fs.lo, ul),
                    f'out.start - field.start = {fmt(o.lo - fs.lo)}; the upper-left corner is {fmt(ul)}',
                    f.loc(ws[0].node))
+            # the written window lies inside the array: clipped to [0, out.shape[ax]] of the *same* axis
+            from ..rules import literals
+            lits = literals(p.conds)
+            n_ax, n_other = oshape.items[ax], oshape.items[1 - ax]
+            lo0 = C(0) if o.lo == NONE else o.lo
+
+            def le_known(x, y):
+                # x <= y established by a path condition (or x == y)
+                if x == y:
+                    return True
+                return any((c == nf.app('lt', y, x) and pol is False) or (c == nf.app('le', x, y) and pol is True) for c, pol in lits)
+            up = le_known(o.hi, n_ax)
+            low = le_known(C(0), lo0)
+            verdict, det_b = True, f'{fmt(o)} within [0, {fmt(n_ax)}]'
+            if not up:
+                wrong = n_other != n_ax and le_known(o.hi, n_other)
+                verdict = False if wrong else None
+                det_b = (f'upper bound {fmt(o.hi)[:80]} is limited by {fmt(n_other)} (the other axis), not by {fmt(n_ax)}' if wrong else
+                         f'undecided: no path condition bounds {fmt(o.hi)[:80]} by {fmt(n_ax)}')
+            elif not low:
+                verdict, det_b = None, f'undecided: no path condition shows {fmt(lo0)[:80]} >= 0'
+            chk.ob('C06-c', 'N-bounds', 'field.insert', f'axis {ax} window clipped to the array [{conds_str(p)}]', verdict, det_b,
+                   f.loc(ws[0].node))
     if n < 2:
         raise AnalysisError('field.insert: no clipping path analysed')
 
